@@ -92,6 +92,13 @@ func execC16(c Case) string {
 		case "reader":
 			b, err = bchutil.NewBlockFromReader(bytes.NewReader(input))
 			must(err)
+		case "buffer": // the caller reads from a bytes.Buffer and keeps using it (more data arrives, it is reset and refilled)
+			bb := bytes.NewBuffer(append(append(make([]byte, 0, len(input)+64), input...), 0xde, 0xad))
+			b, err = bchutil.NewBlockFromReader(bb)
+			must(err)
+			bb.Write(bytes.Repeat([]byte{0xee}, 200))
+			bb.Reset()
+			bb.Write(bytes.Repeat([]byte{0xee}, len(input)+32))
 		case "msgbytes":
 			b = bchutil.NewBlockFromBlockAndBytes(msg, ser)
 		case "msgbytesempty": // the caller hands over an EMPTY but non-nil slice: nothing is cached, Bytes() computes
@@ -122,7 +129,9 @@ func execC16(c Case) string {
 			switch call[0] {
 			case 'T':
 				t, err := b.Tx(atoi(call[1:]))
-				if _, ok := err.(bchutil.OutOfRangeError); ok {
+				if _, ok := err.(bchutil.OutOfRangeError); ok && t != nil {
+					res = append(res, "oor-with-a-non-nil-tx")
+				} else if ok {
 					res = append(res, "oor")
 				} else if err != nil {
 					res = append(res, "err")
@@ -137,7 +146,9 @@ func execC16(c Case) string {
 				res = append(res, "txs:"+joinOr(ts, "/"))
 			case 'H':
 				h, err := b.TxHash(atoi(call[1:]))
-				if _, ok := err.(bchutil.OutOfRangeError); ok {
+				if _, ok := err.(bchutil.OutOfRangeError); ok && h != nil {
+					res = append(res, "oor-with-a-non-nil-hash")
+				} else if ok {
 					res = append(res, "oor")
 				} else if err != nil {
 					res = append(res, "err")
@@ -235,10 +246,17 @@ func execC16(c Case) string {
 				}
 			}
 		}
-		if a[3] == "L" {
+		switch a[3] {
+		case "L":
 			obs('L')
 			obs('S')
-		} else {
+		case "A": // Transactions() is the first accessor: it wraps ALL transactions, however many
+			if n := len(b.Transactions()); n != ntx {
+				return "EXT " + ext + " RES Transactions()-returned-" + itoa(n) + "-of-" + itoa(ntx)
+			}
+			obs('S')
+			obs('L')
+		default:
 			obs('S')
 			obs('L')
 		}
@@ -289,7 +307,7 @@ func genC16(r *Rng, tier string, emit func(Case)) {
 	}
 	for _, ntx := range big {
 		for _, ctor := range []string{"msg", "reader", "bytes"} {
-			for _, first := range []string{"L", "S"} {
+			for _, first := range []string{"L", "S", "A"} {
 				e("blkbig", "count:"+itoa(ntx), ctor, itoa(ntx), u64s(r.U64()&0xffff), first)
 			}
 		}
@@ -331,12 +349,12 @@ func genC16(r *Rng, tier string, emit func(Case)) {
 			e("blk", "rawtoken", "raw", "1", "0", "0", hx(raw.Bytes()), "S,L,B,T0,H0,S,A,L")
 		}
 	}
-	ctors := []string{"msg", "bytes", "reader", "msgbytes", "msgbytesempty"}
+	ctors := []string{"msg", "bytes", "reader", "msgbytes", "msgbytesempty", "buffer"}
 	for i := 0; i < n; i++ {
 		ntx := r.Pick(0, 1, 2, 3, 5, 8, 40)
 		ctor := ctors[r.Intn(len(ctors))]
 		trailing := "-"
-		if (ctor == "bytes" || ctor == "reader") && r.Bool() {
+		if (ctor == "bytes" || ctor == "reader" || ctor == "buffer") && r.Bool() {
 			trailing = hx(r.Bytes(1 + r.Intn(3)))
 		}
 		calls := []string{}
